@@ -1,8 +1,202 @@
-/- Model driver for C20 (stub: no ops yet). -/
+/-
+  Model driver for C20 (viewsphere.py, compass.py projections, Sun.position_2d).
+  Line protocol: see DrvCore.  Imports only Mathlib-free files.
+  Floats travel as 16-hex-digit IEEE bit patterns; the harness compares them with a stated tolerance.
+-/
 import Ladybug.DrvCore
+import Ladybug.Model.Dome
+import Ladybug.Model.Proj
+
+open Drv
 
 namespace DrvC20
-def handle (_toks : List String) : String := "bad-op"
+
+instance : NatCast Float := ⟨Float.ofNat⟩
+
+def showErr : Dome.Err → String
+  | .index => "err:index"
+  | .zero => "err:zero"
+  | .assert => "err:assert"
+  | .value => "err:value"
+
+/-- `math.pi` -/
+def pi : Float := Float.ofBits 0x400921FB54442D18
+def twoPi : Float := 2.0 * pi
+
+def showFloats (l : List Float) : String := joinSp (l.map showFloatBits)
+
+def showFace (f : List Int) : String := ",".intercalate (f.map toString)
+
+def showShape (r : Except Dome.Err Dome.MeshShape) : String :=
+  match r with
+  | .error e => showErr e
+  | .ok m => s!"ok {m.vertexCount} {m.faces.length} {m.vectorCount} " ++ joinSp (m.faces.map showFace)
+
+/-- Sine of the accumulated vertical angle: `current = va; repeat: sin(current); current += va`.
+`s 0` is never used by the code (cap 0 is the constant `2π`). -/
+def sinSeq (va : Float) (count : Nat) : Nat → Float :=
+  let accs : Array Float := Id.run do
+    let mut a : Array Float := #[0.0]
+    let mut cur := va
+    for _ in [0:count] do
+      a := a.push cur
+      cur := cur + va
+    return a
+  fun i => Float.sin (accs.getD i 0.0)
+
+/-- The patch areas of `_dome_patch_areas(n, in_place)` in floats; `none` = ZeroDivisionError. -/
+def areasF (n : Int) (ip : Bool) : Option (List Float × List Nat) :=
+  let rows := Dome.rowCounts n
+  let den := Dome.areaAngleDen rows.length n ip
+  if den = 0 then none
+  else if rows.any (· == 0) then none
+  else
+    let va := pi / Float.ofInt den
+    some (Dome.patchAreas twoPi (sinSeq va rows.length) rows, rows)
+
+/-- Exact rational of the float quotient `radians(offset) / vert_angle`. -/
+def offsetQuot (offset : Float) (rowsLen : Nat) (n : Int) (ip : Bool) : Except Dome.Err Rat :=
+  let den := Dome.offsetAngleDen rowsLen n ip
+  if den = 0 then .error .zero
+  else
+    let rad := offset * (pi / 180.0)
+    let vert := pi / Float.ofInt den
+    match Py.ratOfFloatBits (rad / vert).toBits with
+    | some q => .ok q
+    | none => .error .value
+
+def offsetCount (offset : Float) (n : Int) (ip : Bool) : Except Dome.Err Nat :=
+  let rows := Dome.rowCounts n
+  (offsetQuot offset rows.length n ip).map (Dome.offsetPatchCountQ rows)
+
+/-- run-length encoding of a table of rationals -/
+def rle : List Rat → List (Rat × Nat)
+  | [] => []
+  | x :: rest =>
+    match rle rest with
+    | (y, k) :: more => if x = y then (y, k + 1) :: more else (x, 1) :: (y, k) :: more
+    | [] => [(x, 1)]
+
+def showTable (t : List Rat) : String :=
+  toString t.length ++ ":" ++ ";".intercalate ((rle t).map fun p => showRat p.1 ++ "*" ++ toString p.2)
+
+def floats? (l : List String) : Option (List Float) := l.mapM floatBits?
+
+def handle (toks : List String) : String :=
+  match toks with
+  | ["rows", n] =>
+    match n.toInt? with
+    | some n => "ok " ++ showNats (Dome.rowCounts n)
+    | none => "bad-op"
+  | ["layout", n, ip] =>
+    match n.toInt?, bool? ip with
+    | some n, some ip =>
+      let rows := Dome.rowCounts n
+      s!"ok {rows.length} {Dome.meshAngleDen rows.length n ip} " ++ showNats rows
+    | _, _ => "bad-op"
+  | ["dome", n, ip] =>
+    match n.toInt?, bool? ip with
+    | some n, some ip => showShape (Dome.domeShape n ip)
+    | _, _ => "bad-op"
+  | ["sphere", n, ip] =>
+    match n.toInt?, bool? ip with
+    | some n, some ip => showShape (Dome.sphereShape n ip)
+    | _, _ => "bad-op"
+  | ["radial", az, alt] =>
+    match az.toNat?, alt.toNat? with
+    | some az, some alt => showShape (Dome.radialShape az alt)
+    | _, _ => "bad-op"
+  | ["areas", n, ip] =>
+    match n.toInt?, bool? ip with
+    | some n, some ip =>
+      match areasF n ip with
+      | some (a, _) => "ok " ++ showFloats a
+      | none => "err:zero"
+    | _, _ => "bad-op"
+  | ["weights", n, ip] =>
+    match n.toInt?, bool? ip with
+    | some n, some ip =>
+      let rows := Dome.rowCounts n
+      let den := Dome.areaAngleDen rows.length n ip
+      if den = 0 then "err:zero" else
+      "ok " ++ showFloats (Dome.domeWeights twoPi (sinSeq (pi / Float.ofInt den) rows.length) rows)
+    | _, _ => "bad-op"
+  | ["sphere_weights", n, ip] =>
+    match n.toInt?, bool? ip with
+    | some n, some ip =>
+      let rows := Dome.rowCounts n
+      let den := Dome.areaAngleDen rows.length n ip
+      if den = 0 then "err:zero" else
+      "ok " ++ showFloats (Dome.sphereWeights twoPi (sinSeq (pi / Float.ofInt den) rows.length) rows)
+    | _, _ => "bad-op"
+  | ["radial_weights", az, alt] =>
+    match az.toNat?, alt.toNat? with
+    | some az, some alt =>
+      if alt = 0 ∨ az = 0 then "err:zero" else
+      "ok " ++ showFloats (Dome.radialWeights twoPi (sinSeq (pi / Float.ofNat (2 * alt)) alt) az alt)
+    | _, _ => "bad-op"
+  | ["offset_count", bits, n, ip] =>
+    match floatBits? bits, n.toInt?, bool? ip with
+    | some x, some n, some ip =>
+      match offsetCount x n ip with
+      | .ok k => s!"ok {k}"
+      | .error e => showErr e
+    | _, _, _ => "bad-op"
+  | ["offset_patches", bits, n, ip] =>
+    -- horizontal_radial_patches: (len(vectors), len(mesh.faces)); an empty band fails in Mesh3D
+    match floatBits? bits, n.toInt?, bool? ip with
+    | some x, some n, some ip =>
+      match offsetCount x n ip, Dome.domeShape n ip with
+      | .error e, _ => showErr e
+      | _, .error e => showErr e
+      | .ok k, .ok _ => if k = 0 then "err:assert" else s!"ok {2 * k} {2 * k}"
+    | _, _, _ => "bad-op"
+  | ["offset_weights", bits, n, ip] =>
+    match floatBits? bits, n.toInt?, bool? ip with
+    | some x, some n, some ip =>
+      match areasF n ip with
+      | none => "err:zero"
+      | some (_, rows) =>
+        match offsetCount x n ip with
+        | .error e => showErr e
+        | .ok k =>
+          let den := Dome.areaAngleDen rows.length n ip
+          let rel := (Dome.patchAreas twoPi (sinSeq (pi / Float.ofInt den) rows.length) rows).take k
+          if rel.length = 0 then "err:zero" else
+          "ok " ++ showFloats (Dome.offsetWeights twoPi (sinSeq (pi / Float.ofInt den) rows.length) rows k)
+    | _, _, _ => "bad-op"
+  | "sa_reads" :: seq =>
+    match seq.mapM bool? with
+    | some bs => "ok " ++ joinSp ((Dome.readSeq {} bs).map showTable)
+    | none => "bad-op"
+  | "ortho" :: rest =>
+    match floats? rest with
+    | some [x, y, z] => let p := Proj.ortho x y z; "ok " ++ showFloats [p.1, p.2]
+    | _ => "bad-op"
+  | "stereo" :: rest =>
+    match floats? rest with
+    | some [x, y, z, r, ox, oy, oz] =>
+      if r + (z - oz) == 0.0 then "err:zero" else      -- Python float division raises
+      let p := Proj.stereo x y z r ox oy oz; "ok " ++ showFloats [p.1, p.2]
+    | _ => "bad-op"
+  | "pos3d" :: rest =>
+    match floats? rest with
+    | some [vx, vy, vz, r, ox, oy, oz] =>
+      let p := Proj.position3d vx vy vz r ox oy oz; "ok " ++ showFloats [p.1, p.2.1, p.2.2]
+    | _ => "bad-op"
+  | "pos2d_ortho" :: rest =>
+    match floats? rest with
+    | some [vx, vy, vz, r, ox, oy] =>
+      let p := Proj.position2dOrtho vx vy vz r ox oy; "ok " ++ showFloats [p.1, p.2]
+    | _ => "bad-op"
+  | "pos2d_stereo" :: rest =>
+    match floats? rest with
+    | some [vx, vy, vz, r, ox, oy] =>
+      if r + ((vz * r + 0.0) - 0.0) == 0.0 then "err:zero" else
+      let p := Proj.position2dStereo vx vy vz r ox oy; "ok " ++ showFloats [p.1, p.2]
+    | _ => "bad-op"
+  | _ => "bad-op"
+
 end DrvC20
 
 def main : IO Unit := Drv.run DrvC20.handle
